@@ -4,7 +4,8 @@ import OpcuaModel.Base.Bytes
   (uasc/secure_channel_instance.go), statement by statement, for a chunk whose
   headers were decoded (`MessageChunk.Decode` consumed `H` bytes, so `H ≤ |r|`)
   and which is not the unsecured carve-out (`SecurityMode == None …` returns
-  `m.Data` before anything else).
+  `m.Data` before anything else). State of the code: after the `fix:` commit that
+  added the two length checks.
 
   The cryptographic primitives are parameters: `dec` is `c.algo.Decrypt`
   (AES-CBC or block RSA), `verify` is `c.algo.VerifySignature` (HMAC or RSA).
@@ -14,18 +15,18 @@ import OpcuaModel.Base.Bytes
 namespace Opcua.Tamper
 open Opcua
 
-/-- the slice / index expressions of the function that can panic -/
+/-- the slice / index expressions of the function that can still fail in the
+    MODEL for parameter values the code never has (`headerLength ≥ 12` always,
+    and the caller passes the bytes it decoded the headers from); the former
+    sites `b[len(b)-sigLen:]` and `messageToVerify[headerLength:len-padding]`
+    are now behind explicit length checks -/
 inductive Site where
   /-- `b[headerLength:]` (only if the caller passes fewer bytes than the headers it decoded) -/
   | hdr
-  /-- `signature := b[len(b)-c.algo.RemoteSignatureLength():]` -/
-  | sigSlice
   /-- `messageToVerify[len(messageToVerify)-1]` -/
   | padByte
   /-- `messageToVerify[len(messageToVerify)-2]` -/
   | padByte2
-  /-- `messageToVerify[headerLength : len(messageToVerify)-paddingLength]` -/
-  | bodySlice
   deriving Repr, DecidableEq
 
 inductive Out where
@@ -61,41 +62,22 @@ def decrypted (P : Params) (dec : Bytes → Option Bytes) (r : Bytes) : Option B
 
 def verifyAndDecrypt (P : Params) (dec : Bytes → Option Bytes) (verify : Bytes → Bytes → Bool)
     (r : Bytes) : Out :=
-  if r.length < P.H then .panic .hdr else
+  if P.enc && decide (r.length < P.H) then .panic .hdr else   -- `b[headerLength:]` handed to Decrypt
   match decrypted P dec r with
   | none => .err                                             -- StatusBadSecurityChecksFailed
   | some b =>
-    if b.length < P.RS then .panic .sigSlice else
+    -- `if len(b) < headerLength+RemoteSignatureLength() { return BadSecurityChecksFailed }`
+    if b.length < P.H + P.RS then .err else
     let signature := b.drop (b.length - P.RS)
     let mtv := b.take (b.length - P.RS)
     if !verify mtv signature then .err else
     match paddingLength P mtv with
     | .error s => .panic s
     | .ok pl =>
+      -- `if paddingLength > len(messageToVerify)-headerLength { return BadSecurityChecksFailed }`
+      if pl > mtv.length - P.H then .err else
       -- messageToVerify[headerLength : len(messageToVerify)-paddingLength]
-      if mtv.length < P.H + pl then .panic .bodySlice else
       .ok ((mtv.drop P.H).take (mtv.length - pl - P.H))
-
-/-- the guard under which no slice expression can fail: after decryption there
-    is room for the header and a signature, and the padding count found in the
-    last byte(s) stays inside the chunk -/
-def wellSized (P : Params) (dec : Bytes → Option Bytes) (r : Bytes) : Bool :=
-  decide (P.H ≤ r.length) &&
-  match decrypted P dec r with
-  | none => true
-  | some b =>
-    decide (P.H + P.RS ≤ b.length) &&
-    match paddingLength P (b.take (b.length - P.RS)) with
-    | .error _ => false
-    | .ok pl => decide (P.H + pl ≤ b.length - P.RS)
-
-/-- the weaker guard that suffices when the signature does not verify (any
-    chunk made without the keys): only the signature slice must exist -/
-def sigFits (P : Params) (dec : Bytes → Option Bytes) (r : Bytes) : Bool :=
-  decide (P.H ≤ r.length) &&
-  match decrypted P dec r with
-  | none => true
-  | some b => decide (P.RS ≤ b.length)
 
 /-- the guard at the top of the function: the chunk is returned raw
     (`return m.Data, nil`), without any check, iff
@@ -108,6 +90,9 @@ def receive (modeNone policyNone isAsym : Bool) (P : Params) (dec : Bytes → Op
     (verify : Bytes → Bytes → Bool) (r : Bytes) : Out :=
   if carveOut modeNone policyNone isAsym then .ok (r.drop P.H)      -- `m.Data`
   else verifyAndDecrypt P dec verify r
+
+theorem take_length_sub (b : Bytes) (n : Nat) : (b.take (b.length - n)).length = b.length - n := by
+  simp [List.length_take]
 
 def Out.isPanic : Out → Bool
   | .panic _ => true
